@@ -65,8 +65,9 @@ func (s *Service) OnRequest(c service.Conn, payload []byte) (service.Response, b
 	// Create the link with the name and set the full channel to it
 	c.AddLink(request.Name, channel)
 
-	// If an auto-subscribe was requested and the key has read permissions, subscribe
-	if _, key, allowed := s.auth.Authorize(channel, security.AllowRead); allowed && request.Subscribe {
+	// If an auto-subscribe was requested and the key has read permissions, subscribe. A key which
+	// can only be extended (into a private link) can not be used to subscribe, as in OnSubscribe.
+	if _, key, allowed := s.auth.Authorize(channel, security.AllowRead); allowed && request.Subscribe && !key.HasPermission(security.AllowExtend) {
 		ssid := message.NewSsid(key.Contract(), channel.Query)
 		s.pubsub.Subscribe(c, &event.Subscription{
 			Conn:    c.LocalID(),
